@@ -457,6 +457,16 @@ func newTree(prof *profile.Profile, o *Options) (g *Graph) {
 	for _, nm := range parentNodeMap {
 		nodes = append(nodes, nm.nodes()...)
 	}
+	// The maps above are iterated in random order. Start from a fixed
+	// order instead: by the path from the root, which identifies a node
+	// of the tree while all the edges are still in place. Later sorts are
+	// stable, so nodes that they cannot tell apart (same Info and values,
+	// callers elided) stay in this order.
+	paths := make(map[*Node]string, len(nodes))
+	for _, n := range nodes {
+		paths[n] = fmt.Sprint(n.Info) + "\x00" + nodePath(n)
+	}
+	sort.SliceStable(nodes, func(i, j int) bool { return paths[nodes[i]] < paths[nodes[j]] })
 	return selectNodesForGraph(nodes, o.DropNegative)
 }
 
@@ -1063,7 +1073,7 @@ func (ns Nodes) Sort(o NodeOrder) error {
 	default:
 		return fmt.Errorf("report: unrecognized sort ordering: %d", o)
 	}
-	sort.Sort(s)
+	sort.Stable(s)
 	return nil
 }
 
